@@ -1,6 +1,6 @@
 (* C07 - Clones are faithful, self-contained and independent of the original. Property theorems only. *)
-From Coq Require Import List.
-From SV Require Import Base.Base IR.State IR.NS IR.Ops Xform.Clone Proofs.CloneSmall Proofs.C01_full Proofs.Inv1a Proofs.Inv2a Proofs.CloneFrame Proofs.CloneStart Proofs.NsInv Proofs.InvW Proofs.UniqInv Proofs.CloneFaith Proofs.CloneFull Proofs.CloneNetInv Proofs.CloneDefStruct Proofs.CloneLibInv Proofs.CloneAnyInv.
+From Coq Require Import List ZArith String.
+From SV Require Import Base.Base IR.State IR.NS IR.Ops Xform.Clone Proofs.CloneSmall Proofs.C01_full Proofs.Inv1a Proofs.Inv2a Proofs.CloneFrame Proofs.CloneStart Proofs.NsInv Proofs.InvW Proofs.UniqInv Proofs.CloneFaith Proofs.CloneFull Proofs.CloneNetInv Proofs.CloneDefStruct Proofs.CloneLibInv Proofs.CloneAnyInv Proofs.CloneData Proofs.CloneDataNet.
 Import ListNotations.
 
 (* cloning a wire: one fresh element, no pins listed, nothing else changes *)
@@ -164,6 +164,150 @@ Theorem C07_definition_clone_structure : forall ops d,
   exists M, DefStruct s d (fst (fst (clone_definition s d))) (snd (clone_definition s d)) M.
 Proof. exact clone_definition_reachable_struct. Qed.
 Print Assumptions C07_definition_clone_structure.
+
+(* "same names and data": in every reachable state, for the memo M that Definition._clone builds (the
+   one-to-one map of C07_definition_clone_structure, now named: clone_memo) and every pair (a, b) of
+   it: if a is a first-class element (the definition, a port, a cable, a child instance - the kinds
+   that have a dictionary) the dictionary of b after the clone is cdict (data a): the dictionary of a
+   before the clone, entry by entry in the same order, except that - when the definition carries a
+   naming policy - the '.NS' entry is deleted and appended again with the definition's policy as value
+   (FirstClassElement._reapply_naming_policy deletes and re-assigns '.NS' on the root, the namespace
+   manager drops and re-applies it on every element below); if a is a port or a cable, b has the
+   same is_downto / is_scalar / lower_index / direction. Names ('.NAME'), EDIF identifiers
+   ('EDIF.identifier') and user properties are therefore carried over unchanged (the readings below). *)
+Theorem C07_definition_clone_data : forall ops d,
+  let s := run ops init in
+  d < next s -> kind_of s d = Some KDefinition -> snd (fst (clone_definition s d)) = None ->
+  DefStruct s d (fst (fst (clone_definition s d))) (snd (clone_definition s d)) (clone_memo s d) /\
+  DefData s d (fst (fst (clone_definition s d))) (clone_memo s d).
+Proof. exact clone_definition_reachable_data. Qed.
+Print Assumptions C07_definition_clone_data.
+
+(* the same from any state satisfying the invariants of the editing API *)
+Theorem C07_definition_clone_data_from : forall s0 d,
+  UF s0 -> d < next s0 -> kind_of s0 d = Some KDefinition -> snd (fst (clone_definition s0 d)) = None ->
+  DefData s0 d (fst (fst (clone_definition s0 d))) (clone_memo s0 d).
+Proof. exact clone_definition_data. Qed.
+Print Assumptions C07_definition_clone_data_from.
+
+(* the data statement read key by key: for a pair (a, b) of the memo with a first-class,
+   (1) every key other than '.NS' has in b the value it has in a; (2) the entries other than '.NS' are
+   the same list, in the same order; (3) if the definition carries the policy v, the dictionary of b is
+   exactly that list followed by ('.NS', v); (4) if it carries none, the dictionary of b is the dictionary of a. *)
+Theorem C07_definition_clone_data_keys : forall s0 d sF M a b k,
+  DefData s0 d sF M -> In (a, b) M -> kind_of s0 a = Some k -> has_data k = true ->
+  (forall key, key <> str_NS -> sassoc key (data sF b) = sassoc key (data s0 a)) /\
+  sassoc_del str_NS (data sF b) = sassoc_del str_NS (data s0 a) /\
+  (forall v, sassoc str_NS (data s0 d) = Some v -> data sF b = sassoc_del str_NS (data s0 a) ++ [(str_NS, v)]) /\
+  (sassoc str_NS (data s0 d) = None -> data sF b = data s0 a).
+Proof.
+  intros s0 d sF M a b k D Hab Hk Hd. split; [intros key Hne; apply (clone_key_same s0 d sF M D a b k Hab Hk Hd key Hne)|].
+  split; [apply (clone_user_data_same s0 d sF M D a b k Hab Hk Hd)|].
+  split; [intros v Hv; apply (clone_ns_policy s0 d sF M D a b k Hab Hk Hd v Hv)|apply (clone_no_policy s0 d sF M D a b k Hab Hk Hd)].
+Qed.
+Print Assumptions C07_definition_clone_data_keys.
+
+(* non-vacuity: a named cell with an EDIF identifier and a property, a named child with a property, a
+   named cable with a property, a named two-pin input port with lower index 3, not downto; the clone
+   completes, the memo pairs 5->12 (definition) 9->13 (port) 7->16 (cable) 6->18 (child), and the
+   dictionaries of the copies are the originals with '.NS' moved to the end; the port attributes follow *)
+Example C07_definition_clone_data_sample :
+  let ops := [ ONew KNetlist None []; OCreate RLibs 0 (Some (s2l "work"%string)) [] 0 None;
+               OCreate RDefs 1 (Some (s2l "leaf"%string)) [] 0 None; OCreate RPorts 2 (Some (s2l "A"%string)) [] 1 None;
+               OCreate RDefs 1 (Some (s2l "top"%string)) [(str_IDENT, VStr (s2l "top"%string)); (s2l "k"%string, VInt 3)] 0 None;
+               OCreate RChildren 5 (Some (s2l "u1"%string)) [(s2l "INIT"%string, VStr (s2l "8'h00"%string))] 0 (Some 2);
+               OCreate RCables 5 (Some (s2l "n1"%string)) [(s2l "w"%string, VBool true)] 1 None;
+               OCreate RPorts 5 (Some (s2l "P"%string)) [(s2l "pp"%string, VNone)] 2 None;
+               OSetDownto 9 false; OSetLower 9 3%Z; OSetDirection 9 DIn; OConnect 8 (POut 6 4) None ] in
+  let s := run ops init in
+  let r := clone_definition s 5 in
+  let sF := fst (fst r) in
+  next s = 12 /\ kind_of s 5 = Some KDefinition /\ snd (fst r) = None /\ snd r = 12 /\
+  clone_memo s 5 = [(6, 18); (8, 17); (7, 16); (11, 15); (10, 14); (9, 13); (5, 12)] /\
+  data s 5 = [(str_NS, VStr str_DEFAULT); (str_NAME, VStr (s2l "top"%string)); (str_IDENT, VStr (s2l "top"%string)); (s2l "k"%string, VInt 3)] /\
+  data sF 12 = [(str_NAME, VStr (s2l "top"%string)); (str_IDENT, VStr (s2l "top"%string)); (s2l "k"%string, VInt 3); (str_NS, VStr str_DEFAULT)] /\
+  data sF 18 = [(str_NAME, VStr (s2l "u1"%string)); (s2l "INIT"%string, VStr (s2l "8'h00"%string)); (str_NS, VStr str_DEFAULT)] /\
+  data sF 16 = [(str_NAME, VStr (s2l "n1"%string)); (s2l "w"%string, VBool true); (str_NS, VStr str_DEFAULT)] /\
+  data sF 13 = [(str_NAME, VStr (s2l "P"%string)); (s2l "pp"%string, VNone); (str_NS, VStr str_DEFAULT)] /\
+  bflags sF 13 = (false, true, 3%Z, DIn) /\ bflags s 9 = (false, true, 3%Z, DIn).
+Proof. vm_compute. repeat split. Qed.
+
+(* the same for Netlist.clone, the deep copy of a whole design, under the hypotheses of
+   C07_netlist_clone_structure and for the memo of that theorem, now named (netlist_memo = the memo
+   Netlist._clone ends with): for every pair (a, b) with a first-class, the dictionary of b is cdict of
+   the dictionary of a ('.NS' deleted and appended again with the netlist's policy) when a lies below the
+   netlist - the netlist itself, its libraries, their definitions, the ports, cables and child instances
+   of those: what apply_namespace walks - and is the dictionary of a unchanged otherwise (the one case: a
+   top instance that is not a child of any definition; its copy is not visited by the re-applied
+   policy); ports and cables keep their bundle attributes. *)
+Theorem C07_netlist_clone_data : forall ops n,
+  let s := run ops init in
+  kind_of s n = Some KNetlist -> Closed s n -> snd (fst (clone_netlist s n)) = None ->
+  NetStruct s n (fst (fst (clone_netlist s n))) (snd (clone_netlist s n)) (netlist_memo s n) /\
+  NetData s n (fst (fst (clone_netlist s n))) (netlist_memo s n).
+Proof. exact clone_netlist_reachable_data. Qed.
+Print Assumptions C07_netlist_clone_data.
+
+(* without the closedness hypothesis (and from any state with fresh identifiers and consistent
+   containers), in terms of the copy: a pair whose copy lies below the copied netlist has cdict of the
+   source dictionary, any other pair the source dictionary itself *)
+Theorem C07_netlist_clone_data_from : forall s0 n,
+  Fresh.Fresh s0 -> Inv1a s0 -> n < next s0 -> snd (fst (clone_netlist s0 n)) = None ->
+  forall a b, In (a, b) (netlist_memo s0 n) -> a < next s0 ->
+    PairData s0 n (fst (fst (clone_netlist s0 n))) (snd (clone_netlist s0 n)) a b.
+Proof. exact clone_netlist_data. Qed.
+Print Assumptions C07_netlist_clone_data_from.
+
+(* Library.clone: for every pair (a, b) of the memo Library._clone builds and every kind k of b: if k is
+   first-class, the dictionary of b is cdict (w.r.t. the library's policy) of the dictionary of a when b
+   lies below the copied library, and the dictionary of a otherwise; ports and cables keep their attributes *)
+Theorem C07_library_clone_data : forall ops l,
+  let s := run ops init in
+  l < next s -> snd (fst (clone_library s l)) = None ->
+  forall a b, In (a, b) (library_memo s l) -> a < next s ->
+    PairData s l (fst (fst (clone_library s l))) (snd (clone_library s l)) a b.
+Proof. exact clone_library_reachable_data. Qed.
+Print Assumptions C07_library_clone_data.
+
+(* the small roots: clone() of a port, a cable or an instance carries the dictionary (with its '.NS'
+   entry, in place: nothing is re-applied) and, for bundles, the attributes *)
+Theorem C07_small_clone_data : forall s0 e, e < next s0 ->
+  (snd (clone_port s0 e) = next s0 /\ data (fst (fst (clone_port s0 e))) (next s0) = data s0 e /\
+   bflags (fst (fst (clone_port s0 e))) (next s0) = bflags s0 e) /\
+  (snd (clone_cable s0 e) = next s0 /\ data (fst (fst (clone_cable s0 e))) (next s0) = data s0 e /\
+   bflags (fst (fst (clone_cable s0 e))) (next s0) = bflags s0 e) /\
+  (snd (clone_instance s0 e) = next s0 /\ data (fst (fst (clone_instance s0 e))) (next s0) = data s0 e).
+Proof.
+  intros s0 e He. split; [|split].
+  - destruct (clone_port_data s0 e He) as [A [B C]]. rewrite A in B, C. split; [exact A|split; assumption].
+  - destruct (clone_cable_data s0 e He) as [A [B C]]. rewrite A in B, C. split; [exact A|split; assumption].
+  - destruct (clone_instance_data s0 e He) as [A B]. rewrite A in B. split; assumption.
+Qed.
+Print Assumptions C07_small_clone_data.
+
+(* non-vacuity of the netlist statement: a named netlist with a property, a library, a leaf cell, a cell
+   with a named child carrying a property, and a stand-alone top instance (9) carrying a key; the clone
+   completes; netlist 0 -> 10 and library 1 -> 11 get '.NS' moved to the end, the top instance 9 -> 19 is
+   not below the netlist and keeps its dictionary as it is *)
+Example C07_netlist_clone_data_sample :
+  let ops := [ ONew KNetlist (Some (s2l "design"%string)) [(s2l "rev"%string, VInt 2)];
+               OCreate RLibs 0 (Some (s2l "work"%string)) [] 0 None;
+               OCreate RDefs 1 (Some (s2l "leaf"%string)) [] 0 None; OCreate RPorts 2 (Some (s2l "A"%string)) [] 1 None;
+               OCreate RDefs 1 (Some (s2l "top"%string)) [(str_IDENT, VStr (s2l "top"%string))] 0 None;
+               OCreate RChildren 5 (Some (s2l "u1"%string)) [(s2l "INIT"%string, VStr (s2l "8'h00"%string))] 0 (Some 2);
+               OCreate RCables 5 (Some (s2l "n1"%string)) [] 1 None; OConnect 8 (POut 6 4) None;
+               OSetTop 0 (TopDef 5); ODSet 9 (s2l "k"%string) (VBool true) ] in
+  let s := run ops init in
+  let sF := fst (fst (clone_netlist s 0)) in
+  next s = 10 /\ kind_of s 0 = Some KNetlist /\ closedb s 0 = true /\ snd (fst (clone_netlist s 0)) = None /\
+  netlist_memo s 0 = [(9, 19); (6, 18); (8, 17); (7, 16); (5, 15); (4, 14); (3, 13); (2, 12); (1, 11); (0, 10)] /\
+  subtree s 0 = [0; 1; 2; 3; 5; 7; 6] /\
+  data s 0 = [(str_NS, VStr str_DEFAULT); (str_NAME, VStr (s2l "design"%string)); (s2l "rev"%string, VInt 2)] /\
+  data sF 10 = [(str_NAME, VStr (s2l "design"%string)); (s2l "rev"%string, VInt 2); (str_NS, VStr str_DEFAULT)] /\
+  data sF 11 = [(str_NAME, VStr (s2l "work"%string)); (str_NS, VStr str_DEFAULT)] /\
+  data sF 18 = [(str_NAME, VStr (s2l "u1"%string)); (s2l "INIT"%string, VStr (s2l "8'h00"%string)); (str_NS, VStr str_DEFAULT)] /\
+  data s 9 = [(str_NS, VStr str_DEFAULT); (s2l "k"%string, VBool true)] /\ data sF 19 = data s 9.
+Proof. vm_compute. repeat split. Qed.
 
 (* faithfulness of Definition._clone, the statement the invariant rests on: the memo maps the copied
    objects of the source injectively to fresh objects; each copied pin points at the image of the wire
